@@ -403,7 +403,7 @@ def zero_crc_tc(rng, stage: str, dlen: Optional[int] = None) -> Optional[Dict]:
 class C02(Prop):
     id = "C02"
     title = "PUS-C telecommand"
-    lean_modules = ["SpVerif.Props.C02"]
+    lean_modules = ["SpVerif.Props.C02", "SpVerif.Props.C11Heap"]
     exhaustive_note = "all 256 values of the version/ack octet and of every other secondary-header octet through the decoder (CRC recomputed); all declared lengths 0..20 with matching CRC"
     trusted_base = ["crcmod (CRC16_CCITT_FUNC, PredefinedCrc) is tied to the Lean bit-serial crc16 by the crc16 op on random and structured inputs in this run"]
 
